@@ -157,4 +157,73 @@ theorem transition_ends (pos mom0 : V) (exp1 : K) (dirs sel acc : List K) (fuel 
       · simp only [Option.some.injEq] at h; subst h; exact hst
   exact ⟨(hfinal fuel _ hinv0 h).1, (hfinal fuel _ hinv0 h).2.1⟩
 
+/-- the result of the doubling loop is its argument (no iteration) or the outcome of a doubling -/
+theorem loop_result (fuel : Nat) (st st' : Loop K V) (h : loop target dot logu eps joint0 fuel st = some st') :
+    st' = st ∨ ∃ st'', st' = doubling target dot logu eps joint0 st'' := by
+  induction fuel generalizing st with
+  | zero => simp [loop] at h
+  | succ f ih =>
+    simp only [loop] at h
+    split at h
+    · rcases ih _ h with h' | h'
+      · exact Or.inr ⟨st, h'⟩
+      · exact Or.inr h'
+    · simp only [Option.some.injEq] at h; exact Or.inl h.symm
+
+/-- **the acceptance statistic of a transition**: `α` and `n_α` reported at the end are those of the subtree built by the
+    *last* doubling: `n_α` is the number of its leapfrog points (at least one), `α` the sum of
+    `min(1, exp(joint − joint₀))` over them — so `α/n_α` is their mean and lies in `[0, 1]`. -/
+theorem transition_statistic (hexp : ∀ x : K, 0 ≤ HasExp.exp x) (pos mom0 : V) (exp1 : K) (dirs sel acc : List K)
+    (fuel : Nat) (st' : Loop K V)
+    (h : transition target dot eps pos mom0 exp1 dirs sel acc fuel = some st') :
+    let z0 : Pt K V := ⟨pos, mom0, (target pos).2, (target pos).1⟩
+    ∃ (dirNeg : Bool) (j : Nat) (start : Pt K V) (sel' : List K),
+      let t := (buildTree target dot (joint dot z0 - exp1) dirNeg eps (joint dot z0) j start sel').1
+      st'.alpha = (t.leaves.map (accTerm dot (joint dot z0))).sum ∧ st'.nalpha = t.leaves.length ∧ 0 < st'.nalpha
+      ∧ 0 ≤ st'.alpha / (st'.nalpha : K) ∧ st'.alpha / (st'.nalpha : K) ≤ 1 := by
+  intro z0
+  unfold transition at h
+  simp only at h
+  rcases loop_result target dot _ eps _ fuel _ st' h with h0 | ⟨st'', hd⟩
+  · -- impossible: the initial state has `s = true`, so at least one doubling runs
+    exfalso
+    cases fuel with
+    | zero => simp [loop] at h
+    | succ f =>
+      simp only [loop, if_true] at h
+      rcases loop_result target dot _ eps _ f _ st' h with h1 | ⟨s2, h2⟩
+      · rw [h0] at h1
+        have := congrArg Loop.j h1
+        simp [doubling] at this
+      · rw [h0] at h2
+        have := congrArg Loop.j h2
+        simp [doubling] at this
+        -- `j` of the initial state is 0, `j` after a doubling is positive
+  · refine ⟨!(decide (st''.dirs.headD ((0 : Nat) : K) < (halfK : K))), st''.j,
+      (if (!(decide (st''.dirs.headD ((0 : Nat) : K) < (halfK : K)))) then st''.minus else st''.plus), st''.sel, ?_⟩
+    obtain ⟨c1, _, c3⟩ := buildTree_counts target dot (joint dot z0 - exp1)
+      (!(decide (st''.dirs.headD ((0 : Nat) : K) < (halfK : K)))) eps (joint dot z0) st''.j
+      (if (!(decide (st''.dirs.headD ((0 : Nat) : K) < (halfK : K)))) then st''.minus else st''.plus) st''.sel
+    obtain ⟨_, hne, _, _⟩ := buildTree_leaves_chain target dot (joint dot z0 - exp1)
+      (!(decide (st''.dirs.headD ((0 : Nat) : K) < (halfK : K)))) eps (joint dot z0) st''.j
+      (if (!(decide (st''.dirs.headD ((0 : Nat) : K) < (halfK : K)))) then st''.minus else st''.plus) st''.sel
+    obtain ⟨r1, r2⟩ := buildTree_alpha_range target dot (joint dot z0 - exp1)
+      (!(decide (st''.dirs.headD ((0 : Nat) : K) < (halfK : K)))) eps (joint dot z0) hexp st''.j
+      (if (!(decide (st''.dirs.headD ((0 : Nat) : K) < (halfK : K)))) then st''.minus else st''.plus) st''.sel
+    have ha : st'.alpha = (buildTree target dot (joint dot z0 - exp1)
+        (!(decide (st''.dirs.headD ((0 : Nat) : K) < (halfK : K)))) eps (joint dot z0) st''.j
+        (if (!(decide (st''.dirs.headD ((0 : Nat) : K) < (halfK : K)))) then st''.minus else st''.plus) st''.sel).1.alpha := by
+      rw [hd]; rfl
+    have hn : st'.nalpha = (buildTree target dot (joint dot z0 - exp1)
+        (!(decide (st''.dirs.headD ((0 : Nat) : K) < (halfK : K)))) eps (joint dot z0) st''.j
+        (if (!(decide (st''.dirs.headD ((0 : Nat) : K) < (halfK : K)))) then st''.minus else st''.plus) st''.sel).1.nalpha := by
+      rw [hd]; rfl
+    simp only
+    have hpos : 0 < st'.nalpha := by
+      rw [hn, c1]; exact List.length_pos_iff.mpr hne
+    have hposK : (0 : K) < (st'.nalpha : K) := by exact_mod_cast hpos
+    refine ⟨by rw [ha, c3], by rw [hn, c1], hpos, ?_, ?_⟩
+    · apply div_nonneg _ hposK.le; rw [ha]; exact r1
+    · rw [div_le_one hposK, ha, hn]; exact r2
+
 end MiniMcmcVerif.NUTS
